@@ -151,11 +151,30 @@ func vDone(c *Client) {
 
 func vFile(c *Client) *File { return &File{c: c, path: "/f", handle: "h"} }
 
+// a value the client hands out is a usable value: every FileInfo method can be
+// called on it (added after seeded change C20-e, which returned entries
+// without their attribute block)
+func vTouchFI(fi os.FileInfo) {
+	vAssert(fi != nil, "a nil error comes with a value")
+	if fi == nil {
+		return
+	}
+	_ = fi.Name()
+	_ = fi.Size()
+	_ = fi.Mode()
+	_ = fi.ModTime()
+	_ = fi.IsDir()
+	_ = fi.Sys()
+}
+
 func vh_C20_readdir() {
 	c := vClient()
 	defer vDone(c)
 	vArbAt = vChoice(3) // opendir, first readdir, (second readdir or close)
 	fis, err := c.ReadDir("/d")
+	for _, fi := range fis {
+		vTouchFI(fi)
+	}
 	vEmit("n", len(fis))
 	vEmit("err", err != nil)
 }
@@ -165,16 +184,30 @@ func vh_C20_stat_family() {
 	defer vDone(c)
 	switch vChoice(4) {
 	case 0:
-		_, err := c.Stat("/p")
+		fi, err := c.Stat("/p")
+		if err == nil {
+			vTouchFI(fi)
+		}
 		vEmit("err", err != nil)
 	case 1:
-		_, err := c.Lstat("/p")
+		fi, err := c.Lstat("/p")
+		if err == nil {
+			vTouchFI(fi)
+		}
 		vEmit("err", err != nil)
 	case 2:
-		_, err := vFile(c).Stat()
+		fi, err := vFile(c).Stat()
+		if err == nil {
+			vTouchFI(fi)
+		}
 		vEmit("err", err != nil)
 	case 3:
-		_, err := c.StatVFS("/p")
+		st, err := c.StatVFS("/p")
+		if err == nil {
+			vAssert(st != nil, "a nil error comes with a value")
+			_ = st.TotalSpace()
+			_ = st.FreeSpace()
+		}
 		vEmit("err", err != nil)
 	}
 }
